@@ -429,6 +429,23 @@ def rewrite_manifest(text, name, origin_dir):
 NEW_SIG_RE = re.compile(r"pub async fn new\(\s*(.*?)\)\s*->\s*(.*?)\s*\{", re.S)
 
 
+CONFIG_STRUCT_RE = re.compile(r"pub struct ApplicationConfig\s*\{(.*?)\n\}", re.S)
+
+
+def config_expr(cn, lib_rs):
+    """Expression building the SDK's `ApplicationConfig`. Without fields: a struct literal. With fields: deserialised from a
+    JSON document, the way an application loads it — every field WITHOUT `#[serde(default)]` is present (as `null`: the
+    configuration types of verif_app ignore the document), every field with it is left out, so that `Default` provides it."""
+    m = CONFIG_STRUCT_RE.search(lib_rs)
+    body = m.group(1) if m else ""
+    fields = re.findall(r"((?:#\[[^\]]*\]\s*)*)pub\s+(\w+)\s*:", body)
+    if not fields:
+        return f"{cn}::ApplicationConfig {{}}"
+    present = [name for attrs, name in fields if "default" not in attrs]
+    doc = "{" + ", ".join(f'\\"{n}\\": null' for n in present) + "}"
+    return f'serde_json::from_str::<{cn}::ApplicationConfig>("{doc}").map_err(|e| format!("ApplicationConfig: {{e}}"))?'
+
+
 def glue_for(sid, lib_rs):
     """Rust source of `async fn start_<crate>()` for one generated SDK (DESIGN Appendix D)."""
     cn = crate_name(sid)
@@ -442,7 +459,7 @@ def glue_for(sid, lib_rs):
         name, ty = a.split(":", 1)
         ty = ty.strip()
         if "ApplicationConfig" in ty:
-            call_args.append(f"{cn}::ApplicationConfig {{}}")
+            call_args.append(config_expr(cn, lib_rs))
         else:
             call_args.append(f"<{ty} as verif_app::Make>::make()")
     unwrap = ".map_err(|e| format!(\"{e:?}\"))?" if ret.startswith("Result") else ""
